@@ -775,7 +775,7 @@ func main() {
 	for _, pr := range pairs {
 		for so := 0; so < 2; so++ {
 			for uo := 0; uo < 2; uo++ {
-				for fin := 0; fin < 2; fin++ {
+				for fin := 0; fin < 3; fin++ {
 					f := [2]string{pr[so], pr[1-so]}
 					u := [2]string{f[uo], f[1-uo]}
 					pubs := func() []scriptStep {
@@ -783,6 +783,17 @@ func main() {
 					}
 					sc := []scriptStep{{ci: 0}, {ci: 1}, {ci: 0, x: 0, topic: f[0]}, {ci: 0, x: 0, topic: f[1]}}
 					sc = append(sc, pubs()...)
+					if fin == 2 { // the connection ends while it still holds both filters; a watcher is told about both
+						sc = []scriptStep{{ci: 0}, {ci: 1}, {ci: 1, x: 85, topic: pr[0], pres: 1}, {ci: 1, x: 85, topic: pr[1], pres: 1},
+							{ci: 0, x: 0, topic: f[0]}, {ci: 0, x: 0, topic: f[1]}}
+						sc = append(sc, pubs()...)
+						sc = append(sc, scriptStep{ci: 0, x: 99, how: (k + uo) % 4})
+						sc = append(sc, pubs()...)
+						t, h := history(lics[k%3], false, 2, 0, sc)
+						sh.Add(t, h, "scenario/colliding-filters", true)
+						k++
+						continue
+					}
 					sc = append(sc, scriptStep{ci: 0, x: 30, topic: u[0]})
 					sc = append(sc, pubs()...)
 					if fin == 0 {
@@ -868,6 +879,24 @@ func main() {
 		sc = append(sc, pubs...)
 		t, h := history(lics[v%3], false, 2, 0, sc)
 		sh.Add(t, h, "scenario/reconnect-noconnect-empty-retained-big-last", true)
+	}
+	// directed scenarios: one connection holds a broader and a narrower filter (parent channel, '+'
+	// level); watchers of both channels are told about every subscription and its end, in every order
+	for v := 0; v < 4; v++ {
+		broad, narrow := "a/", "a/b/"
+		if v >= 2 {
+			broad, narrow = "a/+/", "a/b/"
+		}
+		first, second := narrow, broad
+		if v%2 == 1 {
+			first, second = broad, narrow
+		}
+		sc := []scriptStep{{ci: 0}, {ci: 1}, {ci: 1, x: 85, topic: "a/b/", pres: 1}, {ci: 1, x: 85, topic: "a/", pres: 1},
+			{ci: 0, x: 0, topic: broad}, {ci: 0, x: 0, topic: narrow}, {ci: 1, x: 85, topic: "a/b/"},
+			{ci: 0, x: 30, topic: first}, {ci: 1, x: 85, topic: "a/b/"}, {ci: 0, x: 30, topic: second}, {ci: 1, x: 85, topic: "a/b/"},
+			{ci: 0, x: 0, topic: narrow}, {ci: 0, x: 0, topic: broad}, {ci: 0, x: 99, how: v}, {ci: 1, x: 85, topic: "a/b/"}}
+		t, h := history(lics[v%3], false, 2, 0, sc)
+		sh.Add(t, h, "scenario/overlapping-filters-of-one-connection", true)
 	}
 	for _, n := range []int{150, 260} {
 		t, h := burst(lics[n%3], n)
